@@ -296,6 +296,9 @@ def _analyse(traj, sites, res=None):
     except ValueError:
         out['jumps'] = []
     out['tmatrix'] = np.asarray(tr.matrix())
+    # per-label radii (labels are interleaved in the site list and get permuted with the sites)
+    tr_lab = traj.transitions_between_sites(sites, 'Li', site_radius={'A': 1.0, 'B': 0.9, 'C': 1.1})
+    out['states(per-label radii)'] = np.asarray(tr_lab.states)
     # the same pipeline with an inner-site fraction below one and a minimal residence (candidate jumps)
     tr_in = traj.transitions_between_sites(sites, 'Li', site_radius=1.0, site_inner_fraction=0.55)
     out['events(inner 0.55)'] = sorted(tuple(int(x) for x in r) for r in tr_in.events.to_numpy())
@@ -374,6 +377,8 @@ def replay_metamorphic(inputs):
     rel = lambda rows: sorted((inv[r[0]],) + tuple(r[1:]) for r in rows)  # noqa: E731
     for key in [k_ for k_ in base if k_.startswith('events') or k_.startswith('jumps')]:
         same(rel(base[key]), o.get(key), f'atom permutation: {key} are not the relabelled rows')
+    same(base['states(per-label radii)'][:, [int(np.where(np.array(li) == perm[li][k])[0][0]) for k in range(len(li))]], o['states(per-label radii)'],
+         'atom permutation: states (per-label radii) are not the permuted columns')
     compare(o, 'atom permutation', keys=['matrix', 'tmatrix', 'jump_diffusivity', 'rdf', 'tracer'] + [k for k in base if k.startswith('n_')])
     # (d) permutation of the sites
     sg = rng.permutation(len(sp))  # sites'[j] = sites[sg[j]]
@@ -381,6 +386,8 @@ def replay_metamorphic(inputs):
     o, _ = _analyse(traj, Structure(lat, [sites[int(k)].specie for k in sg], sp[sg], labels=[sites[int(k)].label for k in sg]))
     exp_states = np.where(base['states'] == -1, -1, tau[np.clip(base['states'], 0, None)])
     same(exp_states, o['states'], 'site permutation: states are not relabelled by the inverse permutation')
+    bl = base['states(per-label radii)']
+    same(np.where(bl == -1, -1, tau[np.clip(bl, 0, None)]), o['states(per-label radii)'], 'site permutation: states (per-label radii) are not relabelled by the inverse permutation')
     rs = lambda x: -1 if x == -1 else int(tau[x])  # noqa: E731
     for key in [k_ for k_ in base if k_.startswith('events')]:
         same(sorted((r[0], rs(r[1]), rs(r[2]), rs(r[3]), rs(r[4]), r[5]) for r in base[key]), o.get(key), f'site permutation: {key} are not the relabelled events')
